@@ -269,91 +269,113 @@ func envInt(k string, def int) int {
 	return def
 }
 
-// minimise shrinks a failing tape while the violation signature persists: truncation,
-// ddmin over chunks, then lowering of surviving values.
-func minimise(tb *testing.T, prop, tier string, seed uint64, vals []int, sig string, budget time.Duration) ([]int, int) {
+// minimise shrinks a failing run while the violation signature persists. Decisions are
+// grouped into per-kind streams (the k-th "call-kind" decision, the k-th "who-runs" decision,
+// ...), so that removing or lowering the decisions of one kind leaves every other kind
+// aligned: whole streams are emptied, halved, zeroed in chunks and lowered, largest first.
+func minimise(tb *testing.T, prop, tier string, seed uint64, dec []simrt.Decision, sig string, budget time.Duration) (map[string][]int, int) {
 	deadline := time.Now().Add(budget)
 	runs := 0
-	fails := func(v []int) bool {
-		if time.Now().After(deadline) || runs > 600 {
+	cur := simrt.Streams(dec)
+	curLen := len(dec)
+	clone := func(m map[string][]int) map[string][]int {
+		c := make(map[string][]int, len(m))
+		for k, v := range m {
+			c[k] = append([]int(nil), v...)
+		}
+		return c
+	}
+	fails := func(m map[string][]int) bool {
+		if time.Now().After(deadline) || runs > 700 {
 			return false
 		}
 		runs++
-		r := execute(tb, prop, tier, simrt.NewReplayTape(seed, v), 1)
-		return r.Viol != nil && r.Viol.Sig == sig
-	}
-	cur := append([]int(nil), vals...)
-	// strip trailing zeros / truncate
-	for len(cur) > 0 {
-		half := cur[:len(cur)/2]
-		if fails(half) {
-			cur = append([]int(nil), half...)
-		} else {
-			break
+		t := simrt.NewStreamTape(seed, clone(m))
+		r := execute(tb, prop, tier, t, 1)
+		// a candidate is only simpler if the run it produces is not longer
+		if r.Viol != nil && r.Viol.Sig == sig && len(t.Rec) <= curLen {
+			curLen = len(t.Rec)
+			return true
 		}
+		return false
 	}
-	// ddmin: zero out chunks (keeping positions stable is friendlier to a tape than deleting)
-	for chunk := len(cur) / 2; chunk >= 1; chunk /= 2 {
-		for start := 0; start < len(cur); start += chunk {
-			end := start + chunk
-			if end > len(cur) {
-				end = len(cur)
+	kinds := func() []string {
+		var ks []string
+		for k := range cur {
+			ks = append(ks, k)
+		}
+		sort.Slice(ks, func(i, j int) bool {
+			if len(cur[ks[i]]) != len(cur[ks[j]]) {
+				return len(cur[ks[i]]) > len(cur[ks[j]])
 			}
+			return ks[i] < ks[j]
+		})
+		return ks
+	}
+	for pass := 0; pass < 2; pass++ {
+		for _, k := range kinds() {
+			st := cur[k]
 			allZero := true
-			for _, x := range cur[start:end] {
-				if x != 0 {
+			for _, v := range st {
+				if v != 0 {
 					allZero = false
 				}
 			}
 			if allZero {
 				continue
 			}
-			cand := append([]int(nil), cur...)
-			for i := start; i < end; i++ {
-				cand[i] = 0
+			// empty the stream (every decision of this kind takes its boring alternative)
+			c := clone(cur)
+			c[k] = nil
+			if fails(c) {
+				cur = c
+				continue
 			}
-			if fails(cand) {
-				cur = cand
-			}
-		}
-		if time.Now().After(deadline) {
-			break
-		}
-	}
-	// delete chunks
-	for chunk := len(cur) / 2; chunk >= 1; chunk /= 2 {
-		for start := 0; start+chunk <= len(cur); {
-			cand := append(append([]int(nil), cur[:start]...), cur[start+chunk:]...)
-			if fails(cand) {
-				cur = cand
-			} else {
-				start += chunk
-			}
-		}
-		if time.Now().After(deadline) {
-			break
-		}
-	}
-	// lower values
-	for i := range cur {
-		if cur[i] > 1 {
-			for _, nv := range []int{1, cur[i] / 2} {
-				if nv >= cur[i] {
-					continue
-				}
-				cand := append([]int(nil), cur...)
-				cand[i] = nv
-				if fails(cand) {
-					cur = cand
+			// keep a prefix
+			for n := len(st) / 2; n >= 1; n /= 2 {
+				c := clone(cur)
+				c[k] = append([]int(nil), cur[k][:min(n, len(cur[k]))]...)
+				if fails(c) {
+					cur = c
+				} else {
 					break
 				}
 			}
+			// zero chunks
+			for chunk := (len(cur[k]) + 1) / 2; chunk >= 1; chunk /= 2 {
+				for start := 0; start < len(cur[k]); start += chunk {
+					c := clone(cur)
+					changed := false
+					for i := start; i < start+chunk && i < len(c[k]); i++ {
+						if c[k][i] != 0 {
+							c[k][i] = 0
+							changed = true
+						}
+					}
+					if changed && fails(c) {
+						cur = c
+					}
+				}
+				if chunk == 1 {
+					break
+				}
+			}
+			// lower single values
+			for i := range cur[k] {
+				if cur[k][i] > 1 {
+					c := clone(cur)
+					c[k][i] = 1
+					if fails(c) {
+						cur = c
+					}
+				}
+			}
+			// drop trailing zeros
+			for len(cur[k]) > 0 && cur[k][len(cur[k])-1] == 0 {
+				cur[k] = cur[k][:len(cur[k])-1]
+			}
 		}
-	}
-	for len(cur) > 0 && cur[len(cur)-1] == 0 {
-		if fails(cur[:len(cur)-1]) {
-			cur = cur[:len(cur)-1]
-		} else {
+		if time.Now().After(deadline) {
 			break
 		}
 	}
@@ -425,7 +447,7 @@ func TestVerif(t *testing.T) {
 		if os.Getenv("VERIF_REPLAY_SEARCH") != "" {
 			tape = simrt.NewTape(rf.Seed) // seed-only replay (no tape recorded: process-level crash)
 		} else {
-			tape = simrt.NewStrictTape(rf.Seed, rf.Decisions)
+			tape = simrt.NewStreamTape(rf.Seed, simrt.Streams(rf.Decisions))
 		}
 		r := execute(t, prop, tier, tape, 4000)
 		l := resultLine{Type: "replay", Seed: rf.Seed, Log: r.Log.Lines, LogHash: r.Log.Hash(), Msg: tape.Diverged}
@@ -512,19 +534,19 @@ func TestVerif(t *testing.T) {
 			reported[r.Viol.Sig] = true
 			vals := tape.Values()
 			sig := r.Viol.Sig
-			minVals, mruns := vals, 0
+			streams, mruns := simrt.Streams(tape.Rec), 0
 			if !strings.HasPrefix(sig, "harness/") && os.Getenv("VERIF_NOMIN") == "" {
-				minVals, mruns = minimise(t, prop, tier, seed, vals, sig, 60*time.Second)
+				streams, mruns = minimise(t, prop, tier, seed, tape.Rec, sig, 60*time.Second)
 			}
-			// final run of the minimised tape: the log and decisions of the replay file
-			ft := simrt.NewReplayTape(seed, minVals)
+			// final run of the minimised streams: its decisions and event log are the replay file
+			ft := simrt.NewStreamTape(seed, streams)
 			fr := execute(t, prop, tier, ft, 4000)
 			if fr.Viol == nil || fr.Viol.Sig != sig {
 				// minimisation result does not reproduce (should not happen): fall back to the original
-				ft = simrt.NewReplayTape(seed, vals)
+				ft = simrt.NewStreamTape(seed, simrt.Streams(tape.Rec))
 				fr = execute(t, prop, tier, ft, 4000)
-				minVals = vals
 			}
+			minVals := ft.Values()
 			l := resultLine{Type: "violation", Sig: sig, Seed: seed, Idx: idx, Tape: minVals, Decisions: ft.Rec,
 				Log: fr.Log.Lines, LogHash: fr.Log.Hash(), OrigLen: len(vals), MinRuns: mruns}
 			if fr.Viol != nil {
